@@ -263,3 +263,20 @@ Definition no_such_package (pkgname : string) (i : pkg_import) : Prop :=
 Definition package_import_fault (pkgname : string) (i : pkg_import) : Prop :=
   (i = ImportRaisesOther \/ exists mnf ename, i = ImportRaisesImportError mnf ename) /\
   ~ no_such_package pkgname i.
+
+(* ------------------------------------------------------------------ *)
+(* Implicit (namespace) packages: the __path__ as a SET of directories *)
+
+(* What the file system guarantees about the entries of a __path__: the glob
+   of a directory is a function of the directory (an entry that names the same
+   directory again lists the same files), a file lies in one directory only, and
+   a directory lists a file once. *)
+Definition path_ok (path : list portion) : Prop :=
+  (forall a b, In a path -> In b path -> pdir a = pdir b -> pfiles a = pfiles b) /\
+  (forall a b m n, In a path -> In b path -> In m (pfiles a) -> In n (pfiles b) ->
+     file m = file n -> pdir a = pdir b) /\
+  (forall a, In a path -> NoDup (map file (pfiles a))).
+
+(* the module files found in the directories of a __path__, as a set *)
+Definition in_path (path : list portion) (m : module) : Prop :=
+  exists po, In po path /\ In m (pfiles po).
